@@ -36,11 +36,11 @@ class C01(DiffProperty):
     level_text = ("proof: Coq theorems C01_enc_roundtrip(_complete), C01_enc_sequence, C01_enc_can_complete, C01_py_roundtrip state for all four "
                   "COBS framings, every message, every split into offers and every capacity schedule (no bound) that the finished frame decodes "
                   "(reference decoder) to exactly the bytes handed over, contains no zero but its delimiter, and that successive messages leave "
-                  "the concatenation of their frames; tied to the code on every run by differential execution of the extracted model against an "
+                  "the concatenation of their frames; the same for the library's own push loop mpt_array_push (C01_array_push_data/_term); tied to the code on every run by differential execution of the extracted model against an "
                   "ASan/UBSan build (per-call state and window bytes compared) and by decoding the implementation's frames with its own decoder")
     level_note = ("trusted: Coq kernel; hand transcription of the encoders (validated by the correspondence run); extraction + OCaml driver; harness. "
                   "The command-text framing has its own theorems (C01_text_encoder_roundtrip, C01_text_decoder_delivers: encoder for all splits/capacities, decoder for a whole text in one fragment); "
-                  "multi-call command decoding is proved in C03 (C03_command_history_delivers); multi-fragment iovecs of the command decoder and mpt_array_push itself are correspondence-only. All theorems closed under the global context.")
+                  "multi-call command decoding is proved in C03 (C03_command_history_delivers); mpt_array_push (the library's retry loop: allocation, growth by detach, partial consumption) is modelled ([apush]), driven for real by the harness and proved to keep the encoder invariant (C01_array_push_data, C01_array_push_term; up to the model's loop fuel, exhaustion = EFault is never observed); multi-fragment iovecs of the command decoder are correspondence-only. All theorems closed under the global context.")
     technique = "Coq invariant proof over the resumable encoder (all splits, all capacity schedules) + differential correspondence check"
 
     def project(self, tok):
@@ -55,7 +55,7 @@ class C01(DiffProperty):
     def split(self, case):
         t = case.split()
         hdr, rest = t[:1], t[1:]
-        ar = {"call": 2, "term": 1, "pushall": 2, "termall": 1, "msg": 0, "py": 2}
+        ar = {"call": 2, "term": 1, "pushall": 2, "termall": 1, "msg": 0, "py": 2, "apush": 1, "aterm": 0}
         ops = []
         i = 0
         while i < len(rest):
@@ -93,7 +93,7 @@ class C01(DiffProperty):
             if ops[k][0] != "msg":
                 yield self.join(hdr, ops[:k] + ops[k + 1:])
         for k, o in enumerate(ops):
-            if o[0] in ("call", "pushall") and o[-1] != "-" and len(o[-1]) > 2:
+            if o[0] in ("call", "pushall", "apush") and o[-1] != "-" and len(o[-1]) > 2:
                 h = o[-1]
                 for cut in (h[:len(h) // 2 // 2 * 2], h[len(h) // 2 // 2 * 2:], h[2:], h[:-2]):
                     if cut:
@@ -176,6 +176,26 @@ class C01(DiffProperty):
                 for part in self.gen_splits(rng, m):
                     ops += ["pushall", rng.choice(scheds), hx(part)]
                 ops += ["termall", rng.choice(scheds)]
+            ops += ["msg"]
+            cases.append(" ".join([str(v)] + ops))
+        # the library's own push loop: mpt_array_push on an encode_array (growth by detach, partial consumption,
+        # termination), messages in pieces, lengths around the 64/192/320-byte buffer sizes and the block limits
+        na = 1200 if tier == "quick" else 30000
+        for i in range(na):
+            v = i % 5
+            ops = []
+            for _ in range(rng.choice([1, 1, 2, 3])):
+                r = rng.random()
+                if r < 0.35:
+                    n = rng.choice([60, 61, 62, 63, 64, 65, 126, 127, 128, 129, 190, 191, 192, 193, 253, 254, 255, 256, 318, 319, 320, 321]) + rng.choice([-1, 0, 0, 1])
+                    m = [0 if rng.random() < 0.05 else rng.choice([0x41, 0xff, 0x01, rng.randrange(1, 256)]) for _ in range(n)]
+                else:
+                    m = self.gen_msg(rng, v)
+                if v == 4 and rng.random() < 0.85:
+                    m = [b or 0x20 for b in m]
+                for part in self.gen_splits(rng, m):
+                    ops += ["apush", hx(part)]
+                ops += ["aterm"] if rng.random() < 0.8 else ["apush", "-"]
             ops += ["msg"]
             cases.append(" ".join([str(v)] + ops))
         # bundled Python client: frames of mpt.py:encode_cobs decoded by the C decoder / reference decoder
